@@ -217,6 +217,55 @@ Definition tmap_timestamp_to_sample_id (junk : Z) (t : tmap) (q : Z) : qres :=
   | _ => qres_of (interp junk (phys t) (times t) (ids t) q)
   end.
 
+(* ---- the model of the minimally repaired code (see the final report of the slice):
+     -    size_t high = self->entries_length;
+     +    size_t high = self->entries_length - 1;          (no read of x[length])
+     +    if (ds == 0.0) { return y[low]; }                  (no 0/0, inf cast)
+   Proved in TmapProofs.v: on sorted ids it returns exactly what the present code returns
+   whenever the present code does not fault, and it never reads outside the entries. ---- *)
+Definition search_fixed (xs : list Z) (x0 : Z) : res nat :=
+  match search_loop (length xs) 0 0%nat xs x0 0%nat (length xs - 1)%nat with
+  | Fault e => Fault e
+  | Ok low => Ok (clamp (length xs) low)
+  end.
+
+Definition interp_at_fixed (xs ys : list Z) (low : nat) (x0 : Z) : res Z :=
+  let xl := nth low xs 0 in
+  let yl := nth low ys 0 in
+  let dk := x0 - xl in
+  let ds := nth (S low) xs 0 - xl in
+  let dt := nth (S low) ys 0 - yl in
+  if negb (in64 dk && in64 ds && in64 dt) then Fault Int_overflow
+  else if ds =? 0 then Ok yl
+  else
+    let k := interp_k dk ds dt in
+    if negb (in64 k && in64 (yl + k)) then Fault Int_overflow
+    else Ok (yl + k).
+
+Definition interp_fixed (xs ys : list Z) (x0 : Z) : res Z :=
+  match search_fixed xs x0 with
+  | Fault e => Fault e
+  | Ok low => interp_at_fixed xs ys low x0
+  end.
+
+Definition tmap_sample_id_to_timestamp_fixed (t : tmap) (q : Z) : qres :=
+  match entries t with
+  | [] => QErr TMAP_ERROR_UNAVAILABLE
+  | [(s0, u0)] =>
+      if rate_positive (rate t) then qres_of (single_id_to_time (rate t) s0 u0 q)
+      else QErr TMAP_ERROR_UNAVAILABLE
+  | _ => qres_of (interp_fixed (ids t) (times t) q)
+  end.
+
+Definition tmap_timestamp_to_sample_id_fixed (t : tmap) (q : Z) : qres :=
+  match entries t with
+  | [] => QErr TMAP_ERROR_UNAVAILABLE
+  | [(s0, u0)] =>
+      if rate_positive (rate t) then qres_of (single_time_to_id (rate t) s0 u0 q)
+      else QErr TMAP_ERROR_UNAVAILABLE
+  | _ => qres_of (interp_fixed (times t) (ids t) q)
+  end.
+
 (* ---- helpers for statements and for the correspondence driver ---- *)
 Definition tmap_add_all (t : tmap) (l : list (Z * Z)) : tmap :=
   fold_left (fun t e => fst (tmap_add t (fst e) (snd e))) l t.
